@@ -70,17 +70,19 @@ def hist_traces(ctx, binpath, shapes, depth, readers, opens=("direct",), small=F
     traces = []
     for (n, w, k, last, writer) in shapes:
         cfg = cfg_fileread(n, w, k, last, depth, readers=readers)
-        if small:
+        if small == "boundary":
+            cfg = cfg.replace("Offsets <- MCOffsets", "Offsets <- MCOffsetsBoundary").replace("Ks <- MCKs", "Ks <- MCKsSmall")
+        elif small:
             cfg = cfg.replace("Offsets <- MCOffsets", "Offsets <- MCOffsetsSmall").replace("Ks <- MCKs", "Ks <- MCKsSmall")
         r = vlib.model_check(ctx, "MCFileRead", cfg,
-                             name=f"MCFileRead_{n}_{w}_{k}_{last}_d{depth}_r{len(readers)}{'_small' if small else ''}", want_cases=True)
+                             name=f"MCFileRead_{n}_{w}_{k}_{last}_d{depth}_r{len(readers)}{'_' + str(small) if small else ''}", want_cases=True)
         if not r["cases"]:
             raise Broken("TLC exported no histories")
         casefile = ctx.path(f"hist_{n}_{w}_{k}_{last}_{depth}_{len(readers)}.jsonl")
         open(casefile, "w").write("\n".join(r["cases"]) + "\n")
         ctx.extra["tlc_histories_exported"] = ctx.extra.get("tlc_histories_exported", 0) + len(r["cases"])
         for op in opens:
-            traces.append(gen(ctx, binpath, f"hist_{n}_{w}_{k}_{last}_{writer}_{op}_d{depth}_r{len(readers)}{'s' if small else ''}",
+            traces.append(gen(ctx, binpath, f"hist_{n}_{w}_{k}_{last}_{writer}_{op}_d{depth}_r{len(readers)}{str(small) if small else ''}",
                               ["file-hist", "-n", n, "-w", w, "-k", k, "-last", last, "-cases", casefile, "-open", op,
                                "-writer", writer, "-readers", max(readers)]))
     return traces
@@ -99,7 +101,10 @@ def run_C01(ctx):
          # a writer that omits BlockSizes: child sizes come from Tsize or from opening the children
          gen(ctx, b, "seq_nobs", ["file-gen", "-what", "seq", "-maxn", 7 if q else 16, "-wmax", 3, "-writer", "own-nobs"]),
          # trees of 8+ levels (narrow width, many chunks) and contents whose chunks repeat
-         gen(ctx, b, "deep", ["file-gen", "-what", "deep", "-maxn", 300 if q else 3000])]
+         gen(ctx, b, "deep", ["file-gen", "-what", "deep", "-maxn", 300 if q else 3000]),
+         # valid DAGs no reference writer produces: raw leaves after a dag-pb sibling; a root with a pre-1970 mtime
+         gen(ctx, b, "seq_mixed", ["file-gen", "-what", "seq", "-maxn", 7 if q else 16, "-wmax", 3, "-writer", "own-mixed"]),
+         gen(ctx, b, "seq_mtime", ["file-gen", "-what", "seq", "-maxn", 5 if q else 12, "-wmax", 3, "-writer", "own-mtime"])]
     ctx.exhaustive = False
     decide(ctx, b, "TraceFile", FILE_INVS["C01"], t)
 
@@ -252,6 +257,8 @@ def run_mixed(pid, file_gens, dir_gens):
         if pid == "C05":
             # readers re-used across Seek/Read steps: every TLC history of depth 2 and long random histories
             ht = hist_traces(ctx, b, [(5, 2, 3, 2, "own"), (7, 3, 2, 1, "boxo-balanced-pb-v1")], 2, (1, 2), opens=("direct",))
+            # a reader that has streamed is repositioned exactly onto child boundaries and read again
+            ht += hist_traces(ctx, b, [(5, 2, 3, 2, "own"), (7, 3, 2, 1, "own")], 3 if q else 4, (1,), opens=("direct",), small="boundary")
             ht.append(gen(ctx, b, "randhist", ["file-gen", "-what", "randhist", "-count", 150 if q else 3000, "-seed", ctx.seed]))
             decide(ctx, b, "TraceFile", FILE_INVS[pid], ht)
         if pid in PATH_PART:
@@ -292,7 +299,8 @@ def run_C07(ctx):
          bgen(ctx, b, "dedup", ["-maxn", 5 if q else 6, "-wmax", 2 if q else 3]),
          bgen(ctx, b, "random", ["-count", 30 if q else 500]),
          bgen(ctx, b, "wide", ["-maxn", 400 if q else 40000]),
-         bgen(ctx, b, "deep", ["-maxn", 300 if q else 3000])]
+         bgen(ctx, b, "deep", ["-maxn", 300 if q else 3000]),
+         bgen(ctx, b, "cdc", ["-count", 150 if q else 3000])]
     ctx.exhaustive = True
     decide(ctx, b, "TraceBuild", BUILD_INVS["C07"], t)
 
@@ -545,7 +553,7 @@ def run_C17(ctx):
     ctx.extra["race_detector_reports"] = total_races
     ctx.extra["repetitions_per_scenario"] = reps
     # every call returns what it returns when run alone
-    decide(ctx, b, "TraceDir", ["Inv_Harness_WF", "Inv_NoPanic", "Inv_C02_Lookup", "Inv_C02_Iter", "Inv_C02_Length", "Inv_C17_NoRace"], traces_dir)
+    decide(ctx, b, "TraceDir", ["Inv_Harness_WF", "Inv_NoPanic", "Inv_C02_Lookup", "Inv_C02_Iter", "Inv_C02_Length", "Inv_C17_NoRace", "Inv_C17_MissingShard"], traces_dir)
     decide(ctx, b, "TraceFile", ["Inv_Harness_WF", "Inv_NoPanic", "Inv_C01_Read", "Inv_C01_Whole", "Inv_C01_Open", "Inv_C04_Seek"], traces_file)
 
 
@@ -607,6 +615,11 @@ F_WRITERS = ("writers", ["-maxn", "6", "-wmax", "3"], ["-maxn", "12", "-wmax", "
 F_FAULT = ("fault", ["-maxn", "8", "-wmax", "3"], ["-maxn", "16", "-wmax", "4"])
 F_PRELOAD = ("preload", ["-maxn", "9", "-wmax", "4"], ["-maxn", "20", "-wmax", "4"])
 F_PRELOAD_NOBS = ("preload", ["-maxn", "7", "-wmax", "3", "-writer", "own-nobs"], ["-maxn", "14", "-wmax", "4", "-writer", "own-nobs"])
+F_PRELOAD_MIXED = ("preload", ["-maxn", "7", "-wmax", "3", "-writer", "own-mixed"], ["-maxn", "14", "-wmax", "4", "-writer", "own-mixed"])
+F_PRELOAD_MTIME = ("preload", ["-maxn", "6", "-wmax", "3", "-writer", "own-mtime"], ["-maxn", "12", "-wmax", "4", "-writer", "own-mtime"])
+F_SEQ_MIXED = ("seq", ["-maxn", "7", "-wmax", "3", "-writer", "own-mixed"], ["-maxn", "16", "-wmax", "4", "-writer", "own-mixed"])
+F_RANGE_MIXED = ("range", ["-maxn", "6", "-wmax", "3", "-writer", "own-mixed"], ["-maxn", "10", "-wmax", "4", "-writer", "own-mixed"])
+F_REPEAT = ("seqrepeat", [], [])
 
 TECH_BUILD = ("explicit TLA+ spec (FileBuild, HamtBuild) model-checked by TLC incl. every injected write failure; the real builders "
               "run on a storage wrapper that records every write-open/commit; each build's write sequence, parsed independently "
@@ -750,7 +763,7 @@ PLANS = {
              "the FileRead machine to depth 2 (thorough: 3) on single-block, wrapped and multi-level files and checks the "
              "io.ReadSeeker invariants and reader independence on the model; each history is replayed on real readers and "
              "the recorded trace validated by TLC (Inv_C04_*), plus long random histories."),
-    "C05": P(run_mixed("C05", [F_RANGE, F_SEQ, F_WRITERS], [("sets", "8,256", FAN_T), ("coldlookups", "8,16,256", FAN_T), ("faults", "8", "8,16,256"), ("boxo", "8,256", FAN_T)]),
+    "C05": P(run_mixed("C05", [F_RANGE, F_SEQ, F_WRITERS, F_RANGE_MIXED], [("sets", "8,256", FAN_T), ("coldlookups", "8,16,256", FAN_T), ("faults", "8", "8,16,256"), ("boxo", "8,256", FAN_T)]),
              "TLC proves on FileRead/HamtRead that the lazy algorithms only load blocks whose span intersects the requested "
              "range / shards on the name's digit path; on the real code every range [a,b) of every enumerated file shape and "
              "every member and non-member lookup of every enumerated HAMT is run, and each recorded load is checked by TLC "
@@ -773,12 +786,12 @@ PLANS = {
              "iteration count = Length, over-read errors, every key resolves to the first link yielded under it, unknown keys "
              "are not found, all four lookup entry points agree - validated by TLC (Inv_C15_*).",
              rule=RULE_DIR, technique=TECH_DIR, note=NOTE_DIR),
-    "C20": P(run_mixed("C20", [F_SEQ, F_PRELOAD], [("seq", "8,16", FAN_T)]),
+    "C20": P(run_mixed("C20", [F_SEQ, F_PRELOAD, F_SEQ_MIXED, F_PRELOAD_MIXED, F_REPEAT], [("seq", "8,16", FAN_T)]),
              "first-request order of cold sequential reads / preloads of every enumerated file shape and of cold iteration, "
              "length and preload of every enumerated HAMT (own and reference-written) is validated by TLC to be a prefix of "
              "- and on completion equal to - the pre-order of the walker's block/shard table (Inv_C20_*).",
              rule=RULE_MIX, technique=TECH_MIX),
-    "C06": P(run_mixed("C06", [F_PRELOAD, F_PRELOAD_NOBS], [("preload", "8,16", "8,16,256,1024")]),
+    "C06": P(run_mixed("C06", [F_PRELOAD, F_PRELOAD_NOBS, F_PRELOAD_MIXED, F_PRELOAD_MTIME], [("preload", "8,16", "8,16,256,1024")]),
              "for every enumerated file shape and HAMT: the preload reifier is run with no fault and with each single block "
              "of the entity unavailable; TLC validates loads = all blocks of the entity, none of the entries' blocks, and an "
              "error whenever a block is missing (Inv_C06_*).", rule=RULE_MIX, technique=TECH_MIX),
